@@ -102,13 +102,17 @@ def run_model(driver, scripts, fw="twisted"):
 
 
 def run_model_sentops(driver, scripts, fw="twisted"):
-    """the model's history variable `sentOps` (opcode of every frame produced) after each script: list of int lists"""
+    """the model's history variables after each script: (sentOps as int list, number of close frames recorded in closeSent);
+    None for a script the driver rejects"""
     aio = {"aio": int(fw == "asyncio")}
     out = driver.run([f"ws.ops {cfg_token(dict(s['cfg'], **aio))} {s.get('start', 'open')} " + " ".join(s["ops"]) for s in scripts])
     res = []
     for o in out:
-        body, _, _ = o.rpartition("@")
-        res.append([int(x) for x in body.split(",") if x] if not o.startswith("ERROR") and "@" in o else None)
+        parts = o.split("@")
+        if o.startswith("ERROR") or len(parts) != 3:
+            res.append(None)
+        else:
+            res.append(([int(x) for x in parts[0].split(",") if x], int(parts[2])))
     return res
 
 
